@@ -1406,3 +1406,16 @@ package participle
 //@   requires parser != nil
 //@   pure
 //@   ensures result1 == nil ==> result0 != nil && result0.parserOptions == parser.parserOptions
+
+// error.go: the error constructors (C06 C17: an error made for a position carries that position; wrapping a
+// participle.Error keeps the position of the wrapped error, wrapping anything else takes the one given).
+//@ func Errorf [C06 C17]
+//@   ensures result != nil && typeis(result, *ParseError) && result.(*ParseError) != nil && result.(*ParseError).Pos == pos
+//@   ensures errOK(result)
+//@ func Wrapf [C06 C17]
+//@   requires err != nil
+//@   let wp lexer.Position = result0 after call Error.Position#1 default pos
+//@   ensures result != nil && typeis(result, *wrappingParseError) && result.(*wrappingParseError) != nil && result.(*wrappingParseError).err == err
+//@   ensures @wrappedPos implements(err, Error) ==> result.(*wrappingParseError).ParseError.Pos == wp
+//@   ensures @givenPos !implements(err, Error) ==> result.(*wrappingParseError).ParseError.Pos == pos
+//@   ensures errOK(result)
